@@ -1,9 +1,69 @@
 //! package `layout` (see CONVENTIONS.md): register components here.
+//! C32 desc, C30 csm, C29 map32, C31 sft
+pub mod csm;
+pub mod desc;
+pub mod map32;
+pub mod resolve;
+
+use mmtk::util::heap::vm_layout::VMLayout;
+use mmtk::util::Address;
+use std::sync::Mutex;
+
+/// The layout this process was configured with by a `cfg layout …` line (None = untouched default).
+static LAYOUT_CFG: Mutex<Option<String>> = Mutex::new(None);
+
+fn addr(x: usize) -> Address {
+    unsafe { Address::from_usize(x) }
+}
+
+/// The 32-bit-style layout installed by `cfg layout 32` (same constants as `VMLayout::new_32bit()`;
+/// the Lean side has the same record in `Mmtk.Layout.layout32`).
+pub fn layout32() -> VMLayout {
+    VMLayout {
+        log_address_space: 32,
+        heap_start: addr(0x8000_0000),
+        heap_end: addr(0xd000_0000),
+        log_space_extent: 31,
+        force_use_contiguous_spaces: false,
+    }
+}
+
+/// `cfg` lines of this package. `cfg layout 32|64` must be the first thing that touches the VM
+/// layout in this process: the layout is process-global and (in debug builds) may only be set before
+/// its first use. Repeating the same line is a no-op; asking for a different layout is a mismatch.
+pub fn cfg(tokens: &[&str]) -> bool {
+    match tokens {
+        ["layout", which] => {
+            let mut cur = LAYOUT_CFG.lock().unwrap();
+            if let Some(c) = cur.as_ref() {
+                return c == which;
+            }
+            match *which {
+                "32" => {
+                    mmtk::MMTKBuilder::new_no_env_vars().set_vm_layout(layout32());
+                }
+                "64" => {}
+                _ => return false,
+            }
+            *cur = Some(which.to_string());
+            // validate what the process really uses now
+            let l = mmtk::util::heap::vm_layout::vm_layout();
+            match *which {
+                "32" => !l.force_use_contiguous_spaces && l.heap_end == addr(0xd000_0000),
+                _ => l.force_use_contiguous_spaces && l.heap_end == addr(0x2200_0000_0000) && l.log_space_extent == 41,
+            }
+        }
+        _ => true,
+    }
+}
 
 pub fn dispatch(tokens: &[&str]) -> Option<String> {
-    let (c, _args) = tokens.split_first()?;
-    #[allow(clippy::match_single_binding)]
+    let (c, args) = tokens.split_first()?;
     Some(match *c {
+        "desc" => desc::run(args),
+        "csm" => csm::run(args),
+        "map32" => map32::run(args),
+        "resolve" => resolve::run(args),
         _ => return None,
     })
 }
